@@ -430,7 +430,35 @@ impl<W: Write> Recorder<W> {
             let res = if o.panicked { "panic" } else if ok { "ok" } else { "err" };
             let msg = o.res.as_ref().err().cloned().unwrap_or_default();
             let frames_end = frame_ends.iter().filter(|fe| **fe <= total).count().min(frames_upto[ci]);
-            self.rec(json!({"ev": "end", "res": res, "key": key, "frames": frames_end, "digest": format!("{:016x}:{}", fnv(&output), output.len()),
+            // C03 framing: an independent reader of the target format must recover exactly the documents
+            // written so far, each denoting the value it was generated from (JSON: own reader and one line
+            // per document; MessagePack: own reader; YAML: one '---' line per document; TOML: C08's business)
+            let recok = if ok && o.known && case.wfault.is_none() {
+                let upto: Vec<&V> = case.calls[..=ci].iter().zip(outcomes[..=ci].iter()).filter(|(_, oc)| oc.res.is_ok())
+                    .flat_map(|(c2, _)| c2.values.iter().flatten()).collect();
+                let all_known = case.calls[..=ci].iter().all(|c2| c2.values.is_some()) && outcomes[..=ci].iter().all(|oc| oc.res.is_ok());
+                if !all_known {
+                    true
+                } else {
+                    let so_far = &output[..total.min(output.len())];
+                    match case.to {
+                        "json" => match val::from_json_stream(so_far) {
+                            Ok(d) => d.len() == upto.len() && d.iter().zip(upto.iter()).all(|(a, b)| a == *b)
+                                && so_far.iter().filter(|b| **b == b'\n').count() == upto.len(),
+                            Err(_) => false,
+                        },
+                        "msgpack" => match val::from_msgpack_stream(so_far) {
+                            Ok(d) => d.len() == upto.len() && d.iter().zip(upto.iter()).all(|(a, b)| a == *b),
+                            Err(_) => false,
+                        },
+                        "yaml" => so_far.split(|b| *b == b'\n').filter(|l| *l == b"---").count() == upto.len(),
+                        _ => true,
+                    }
+                }
+            } else {
+                true
+            };
+            self.rec(json!({"ev": "end", "res": res, "key": key, "frames": frames_end, "recok": recok, "digest": format!("{:016x}:{}", fnv(&output), output.len()),
                             "cmp": cmp, "readmsg": msg.contains(READ_FAULT_MSG), "msg": msg.chars().take(160).collect::<String>()}));
         }
         CaseOutcome { calls: outcomes, log: log_v, output, ideal, frame_ends }
